@@ -203,16 +203,17 @@ fn search_decl_references_with_ctx<'a>(
         .get_decl_index()
         .get_decl(&decl_id)?;
     if decl.is_local() {
-        let decl_refs = semantic_model
-            .get_db()
-            .get_reference_index()
-            .get_decl_references(&decl_id.file_id, &decl_id)?;
         let document = semantic_model.get_document();
+        // the declaration is part of the answer also when the local has no use at all
         if ctx.include_declaration
             && let Some(location) = document.to_lsp_location(decl.get_range())
         {
             result.push(location);
         }
+        let decl_refs = semantic_model
+            .get_db()
+            .get_reference_index()
+            .get_decl_references(&decl_id.file_id, &decl_id)?;
         let typ = semantic_model.get_type(decl.get_id().into());
         let should_follow_value_alias = matches!(
             typ,
